@@ -152,7 +152,7 @@ def run(ctx: core.Ctx):
     evs = []
     for cid, a in enumerate(cases):
         a = {"g": list(a["g"]), "f": list(a["f"]), "eg": a["eg"], "ef": a["ef"], "sc": a["sc"]}
-        nfl = 4 if ctx.tier == "thorough" else 1
+        nfl = 2 if ctx.tier == "thorough" else 1
         for k in range(nfl):
             evs.append(event(a, cid, mid, ids, (cid + k + ctx.seed) % 4,
                              full=ctx.tier == "thorough" or cid % 4 == 0))
